@@ -6,7 +6,7 @@ export GOFLAGS=-mod=mod GOPROXY=off GOSUMDB=off GOTOOLCHAIN=local GOWORK=off
 d=$(mktemp -d /tmp/kscratch.XXXXXX)
 (cd /repo && git ls-files | rsync -a --files-from=- . $d/)
 if ! (cd $d && git init -q . && git apply --whitespace=nowarn "$patch"); then echo "PATCH DOES NOT APPLY"; rm -rf $d; exit 3; fi
-/verif/bin/kcheck -repo $d -prop $props -evidence $d/.ev -known /verif/known_findings.json 2>&1 | grep -E "^VIOLATION|^  [^ r]|^C[0-9]+ tier|KNOWN" | sed "s#$d/##g" | cut -c1-400
+${KCHECK:-/verif/bin/kcheck} -repo $d -prop $props -evidence $d/.ev -known /verif/known_findings.json 2>&1 | grep -E "^VIOLATION|^  [^ r]|^C[0-9]+ tier|KNOWN" | sed "s#$d/##g" | cut -c1-400
 rc=${PIPESTATUS[0]}
 rm -rf $d
 exit $rc
